@@ -167,10 +167,27 @@ def cop(o):
         return "OClear"
     if t == "copy":
         return "OCopy"
+    # argument shapes that are other spellings of the same list-model operation
+    if t == "update_kw":
+        return "(OUpdate %s)" % citems(list(dict(o[1]).items()))
+    if t == "update_both":
+        return "(OUpdate %s)" % citems(list(o[1]) + list(dict(o[2]).items()))
+    if t == "extend_kw":          # MultiDict.extend(**kw) hands the keywords to update(): set semantics
+        return "(OUpdate %s)" % citems(list(dict(o[1]).items()))
+    if t == "extend_none":
+        return "(OExtend [])"
+    if t == "update_empty":
+        return "(OUpdate [])"
+    if t == "pop_identity":
+        return "(OPop %s (Some (Some %s)))" % (cstr(o[1]), cstr("dflt"))
+    if t == "setdefault_nodefault":
+        return "(OSetDefault %s None)" % cstr(o[1])
     raise ValueError(o)
 
 
 def crq(o):
+    if o[0] == "delqs":
+        return "(RSetQS (@nil N))"
     if o[0] == "setqs":
         return "(RSetQS %s)" % cstr(o[1])
     return "(RGet %s)" % cop(o)
@@ -208,7 +225,37 @@ def apply_op(d, o):
         c = d.copy()
         c.add("zz", "untracked")        # a copy must not write back
         return None
+    if t == "update_kw":
+        return catch(lambda: d.update(**dict(o[1])))
+    if t == "update_both":
+        return catch(lambda: d.update(list(o[1]), **dict(o[2])))
+    if t == "extend_kw":
+        return catch(lambda: d.extend(**dict(o[1])))
+    if t == "extend_both":
+        return catch(lambda: d.extend(list(o[1]), **dict(o[2])))
+    if t == "extend_none":
+        return catch(d.extend, None)
+    if t == "update_empty":
+        return catch(d.update)
+    if t == "pop_identity":
+        # the default is an object of the caller's (or the very object stored): it must come back as it is
+        stored = [v for k, v in d.items() if k == o[1]]
+        dflt = stored[0] if stored else _SENTINEL
+        r = catch(d.pop, o[1], dflt)
+        if r is _SENTINEL:
+            return "dflt"
+        return r if (isinstance(r, Err) or not stored or r is stored[0]) else Err("NotTheStoredObject")
+    if t == "setdefault_nodefault":
+        # only issued for keys that exist (a missing key would store None: outside the text domain, see oracle_outside)
+        return catch(d.setdefault, o[1]) if o[1] in d else None
     raise ValueError(o)
+
+
+class _Sentinel:
+    pass
+
+
+_SENTINEL = _Sentinel()
 
 
 def ref_apply(l, o):
@@ -250,7 +297,37 @@ def ref_apply(l, o):
         return [], None
     if t == "copy":
         return l, None
+    if t == "update_kw":
+        return ref_apply(l, ("update", list(dict(o[1]).items())))
+    if t == "update_both":
+        return ref_apply(l, ("update", list(o[1]) + list(dict(o[2]).items())))
+    if t == "extend_kw":
+        return ref_apply(l, ("update", list(dict(o[1]).items())))
+    if t == "extend_both":          # the positional part is appended, the keywords are then set
+        l, _ = ref_apply(l, ("extend", list(o[1]), "list"))
+        return ref_apply(l, ("update", list(dict(o[2]).items())))
+    if t == "extend_none":
+        return l, None
+    if t == "update_empty":
+        return l, None
+    if t == "pop_identity":
+        return ref_apply(l, ("pop", o[1], True, "dflt"))
+    if t == "setdefault_nodefault":
+        h = [kv for kv in l if kv[0] == o[1]]
+        return l, (h[0][1] if h else None)
     raise ValueError(o)
+
+
+def set_qs(req, env, o):
+    """A raw edit of the query string: through the environ, through the query_string attribute, or by deleting the key."""
+    if o[0] == "delqs":
+        env.pop("QUERY_STRING", None)
+        return ""
+    if len(o) > 2 and o[2] == "attr":
+        req.query_string = o[1]
+    else:
+        env["QUERY_STRING"] = o[1]
+    return o[1]
 
 
 def run_get_history(qs0, ops):
@@ -258,14 +335,14 @@ def run_get_history(qs0, ops):
     req, env = new_request(qs0)
     out = []
     for o in ops:
-        if o[0] == "setqs":
-            env["QUERY_STRING"] = o[1]
+        if o[0] in ("setqs", "delqs"):
+            set_qs(req, env, o)
             ret = None
         else:
             g = catch(lambda: req.GET)
             ret = g if isinstance(g, Err) else apply_op(g, o)
         items = catch(lambda: [list(kv) for kv in req.GET.items()])
-        out.append([ret, items, env["QUERY_STRING"]])
+        out.append([ret, items, env.get("QUERY_STRING", "")])
     return out
 
 
@@ -278,35 +355,34 @@ def oracle_history(qs0, ops):
     if r0:
         return r0
     for i, o in enumerate(ops):
-        if o[0] == "setqs":
-            env["QUERY_STRING"] = o[1]
-            cur = ref_decode_qs(o[1])
+        if o[0] in ("setqs", "delqs"):
+            cur = ref_decode_qs(set_qs(req, env, o))
             ret = want_ret = None
         else:
             g = catch(lambda: req.GET)
             if isinstance(cur, Err):
                 if g != cur:
-                    return classify_query(env["QUERY_STRING"], g, cur), \
-                        "step %d: request.GET on %r gives %r, reference %r" % (i, env["QUERY_STRING"], g, cur)
+                    return classify_query(env.get("QUERY_STRING", ""), g, cur), \
+                        "step %d: request.GET on %r gives %r, reference %r" % (i, env.get("QUERY_STRING", ""), g, cur)
                 continue
             if isinstance(g, Err):
-                return classify_query(env["QUERY_STRING"], g, cur), \
-                    "step %d: request.GET on %r raises %r, reference %r" % (i, env["QUERY_STRING"], g, cur)
+                return classify_query(env.get("QUERY_STRING", ""), g, cur), \
+                    "step %d: request.GET on %r raises %r, reference %r" % (i, env.get("QUERY_STRING", ""), g, cur)
             ret = apply_op(g, o)
             cur, want_ret = ref_apply(cur, o)
             if ret != want_ret:
                 return "mutation:return-value", "step %d %r returned %r, list model says %r" % (i, o, ret, want_ret)
-        qs = env["QUERY_STRING"]
+        qs = env.get("QUERY_STRING", "")
         items = catch(lambda: [list(kv) for kv in req.GET.items()])
         if items != cur:
-            if o[0] != "setqs":
+            if o[0] not in ("setqs", "delqs"):
                 key = "mutation:items"
             elif impl_get(qs) == cur:
                 key = "get-cache:stale-after-query-string-assignment"
             else:
                 key = classify_query(qs, items, cur)
             return key, "step %d %r: request.GET shows %r, expected %r" % (i, o, items, cur)
-        wrote = o[0] not in ("setqs", "copy") and not isinstance(ret, Err)
+        wrote = o[0] not in ("setqs", "delqs", "copy") and not isinstance(ret, Err)
         if wrote and (not isinstance(qs, str) or any(ord(c) > 127 for c in qs)):
             return "mutation:query-string-not-ascii", "step %d %r: QUERY_STRING %r" % (i, o, qs)
         fresh = impl_get(qs)
@@ -348,7 +424,24 @@ def rand_op(rng, with_setqs=True):
     if t == "extend":
         return (t, rand_pairs(rng), rng.choice(["list", "dict", "md", "iter"]))
     if t == "setqs":
-        return (t, rand_qs(rng, 12))
+        r = rng.random()
+        if r < 0.1:
+            return ("delqs",)
+        return (t, rand_qs(rng, 12), "attr") if r < 0.4 else (t, rand_qs(rng, 12))
+    return (t,)
+
+
+def rand_op_shapes(rng, model=True):
+    """Other argument shapes of the same methods (keywords, both, None, no argument, identity defaults).
+    model=True: only shapes that are ONE operation of the Gallina op type (extend(list, **kw) is two)."""
+    t = rng.choice(["update_kw", "update_both", "extend_kw", "extend_none", "update_empty", "pop_identity",
+                    "pop_identity"] + ([] if model else ["extend_both", "extend_both"]))
+    if t in ("update_kw", "extend_kw"):
+        return (t, rand_pairs(rng))
+    if t in ("update_both", "extend_both"):
+        return (t, rand_pairs(rng, 2), rand_pairs(rng, 2))
+    if t == "pop_identity":
+        return (t, rand_text(rng))
     return (t,)
 
 
@@ -370,7 +463,8 @@ def rand_valid_qs(rng):
 
 def rand_history(rng, maxlen, with_setqs=True):
     qs0 = rand_qs(rng, 8) if rng.random() < 0.5 else rand_valid_qs(rng)
-    return qs0, [rand_op(rng, with_setqs) for _ in range(rng.randrange(1, maxlen + 1))]
+    return qs0, [rand_op_shapes(rng) if rng.random() < 0.2 else rand_op(rng, with_setqs)
+                 for _ in range(rng.randrange(1, maxlen + 1))]
 
 
 def small_op_universe():
@@ -390,8 +484,10 @@ def small_op_universe():
 def fix_op(o):
     """JSON round trip turns tuples into lists."""
     o = list(o)
-    if o[0] in ("update", "update_dict", "update_md", "extend"):
+    if o[0] in ("update", "update_dict", "update_md", "extend", "update_kw", "extend_kw", "update_both", "extend_both"):
         o[1] = [tuple(p) for p in o[1]]
+    if o[0] in ("update_both", "extend_both"):
+        o[2] = [tuple(p) for p in o[2]]
     return tuple(o)
 
 
@@ -549,9 +645,15 @@ def fix_fields(fields):
 
 
 # ===================================================================== multipart model correspondences
+def _mp_ctype(boundary, fields):
+    """The boundary parameter in one of its spellings (chosen by the case itself, so it is reproducible)."""
+    forms = [f for f in CFG_CT_MULTIPART if f]
+    return forms[(len(boundary) + len(fields) + sum(len(k) for k, _ in fields)) % len(forms)] % boundary
+
+
 def impl_encode_multipart(boundary, fields):
     from webob.request import _encode_multipart
-    r = catch(_encode_multipart, list(fields), "multipart/form-data; boundary=%s" % boundary)
+    r = catch(_encode_multipart, list(fields), _mp_ctype(boundary, fields))
     return r if isinstance(r, Err) else r[1]
 
 
@@ -559,7 +661,8 @@ def impl_decode_multipart(boundary, body):
     from webob import Request
 
     def go():
-        req = Request.blank("/", POST=body, content_type="multipart/form-data; boundary=%s" % boundary)
+        forms = [f for f in CFG_CT_MULTIPART if f]
+        req = Request.blank("/", POST=body, content_type=forms[len(body) % len(forms)] % boundary)
         return canon_post(req.POST)
     return catch(go)
 
@@ -680,6 +783,8 @@ def cs_fields(rng, cs):
 
 # ===================================================================== held GetDict objects (model: C09_Held.v)
 def chq(o):
+    if o[0] == "delqs":
+        return "(HSetQS (@nil N))"
     if o[0] == "setqs":
         return "(HSetQS %s)" % cstr(o[1])
     if o[0] == "held":
@@ -698,13 +803,13 @@ def run_held_history(qs0, ops, check=False):
             if h is g:
                 return j
         heap.append(g)
-        exp.append(ref_decode_qs(env["QUERY_STRING"]))
+        exp.append(ref_decode_qs(env.get("QUERY_STRING", "")))
         return len(heap) - 1
     out = []
     for i, o in enumerate(ops):
         ret, j, op = None, None, None
-        if o[0] == "setqs":
-            env["QUERY_STRING"] = o[1]
+        if o[0] in ("setqs", "delqs"):
+            set_qs(req, env, o)
         elif o[0] == "held":
             if o[1] < len(heap):
                 j, op = o[1], fix_op(o[2])
@@ -723,15 +828,15 @@ def run_held_history(qs0, ops, check=False):
         v = catch(lambda: req.GET)
         items = v if isinstance(v, Err) else [list(kv) for kv in heap[reg(v)].items()]
         cells = [[list(kv) for kv in h.items()] for h in heap]
-        out.append([ret, items, env["QUERY_STRING"], cells])
+        out.append([ret, items, env.get("QUERY_STRING", ""), cells])
         if check:
-            want = ref_decode_qs(env["QUERY_STRING"])
+            want = ref_decode_qs(env.get("QUERY_STRING", ""))
             if items != want:
                 wrote = j is not None and op[0] != "copy" and not isinstance(ret, Err)
                 key = ("live:held-getdict-write-back" if o[0] == "held" else "mutation:write-back") if wrote else \
-                    classify_query(env["QUERY_STRING"], items, want)
+                    classify_query(env.get("QUERY_STRING", ""), items, want)
                 return key, ("step %d %r: request.GET shows %r but a fresh parse of QUERY_STRING %r gives %r"
-                             % (i, o, items, env["QUERY_STRING"], want))
+                             % (i, o, items, env.get("QUERY_STRING", ""), want))
             if cells != exp:
                 return "live:held-getdict-items", "step %d %r: the GetDict objects show %r, list model %r" % (i, o, cells, exp)
             if j is not None and op[0] != "copy" and not isinstance(ret, Err) and items != exp[j]:
@@ -854,9 +959,8 @@ def oracle_live(case):
             after = live_snapshot(req)
             if after != before:
                 return "live:state-changed-by-read", "%s: read-only access changed %r into %r" % (what, before, after)
-        elif t == "setqs":
-            env["QUERY_STRING"] = a[1]
-            cur_get = ref_decode_qs(a[1])
+        elif t in ("setqs", "delqs"):
+            cur_get = ref_decode_qs(set_qs(req, env, a))
         elif t in ("mut", "hmut"):
             if t == "mut":
                 if isinstance(cur_get, Err):
@@ -883,11 +987,11 @@ def oracle_live(case):
                 return "mutation:items", "%s: the GetDict shows %r, expected %r" % (what, got, exp)
             if op[0] != "copy" and not isinstance(ret, Err):
                 cur_get = [list(kv) for kv in exp]     # the mutated GetDict took over QUERY_STRING
-                fresh = impl_get(env["QUERY_STRING"])
+                fresh = impl_get(env.get("QUERY_STRING", ""))
                 if fresh != exp:
                     key = "mutation:write-back" if t == "mut" else "live:held-getdict-write-back"
                     return key, "%s: GetDict shows %r but a fresh parse of QUERY_STRING %r gives %r" % (
-                        what, got, env["QUERY_STRING"], fresh)
+                        what, got, env.get("QUERY_STRING", ""), fresh)
                 now = catch(lambda: [list(kv) for kv in req.GET.items()])
                 if now != exp:
                     return "live:get", "%s: afterwards request.GET shows %r, expected %r" % (what, now, exp)
@@ -917,11 +1021,11 @@ def oracle_live(case):
                 cg = c.GET
                 apply_op(cg, op)
                 exp_c, _ = ref_apply([list(kv) for kv in cur_get], op)
-                fresh_c = impl_get(c.environ["QUERY_STRING"])
+                fresh_c = impl_get(c.environ.get("QUERY_STRING", ""))
                 if fresh_c != exp_c:
                     shared = getattr(cg, "env", None) is not c.environ
                     return ("live:copy-shares-getdict" if shared else "live:copy-write-back"), ("%s: the copy's GET shows %r but its QUERY_STRING %r parses to %r"
-                                                    % (what, [list(kv) for kv in cg.items()], c.environ["QUERY_STRING"],
+                                                    % (what, [list(kv) for kv in cg.items()], c.environ.get("QUERY_STRING", ""),
                                                        fresh_c))
             if t == "copy":
                 c.body = b"x=changed"
@@ -936,7 +1040,7 @@ def oracle_live(case):
         elif t == "decode":
             cs = a[1]
             before = live_snapshot(req)
-            fresh = make_live_request(env["QUERY_STRING"], cur_fields, cur_mode)
+            fresh = make_live_request(env.get("QUERY_STRING", ""), cur_fields, cur_mode)
             want = catch(lambda: live_views(fresh.decode(cs)))
             for n in (1, 2):                # decode() is a pure function of the request: twice gives the same
                 got = catch(lambda: live_views(req.decode(cs)))
@@ -972,13 +1076,15 @@ def rand_live_case(rng, maxlen):
         t = rng.choice(["rget", "rpost", "rparams", "rall", "rall", "mut", "mut", "mut", "setqs", "hold", "hold", "hmut",
                         "hmut", "hread", "body", "copy", "copy_get", "decode"])
         if t == "mut":
-            acts.append((t, rand_op(rng, False)))
+            acts.append((t, rand_op_shapes(rng, False) if rng.random() < 0.2 else rand_op(rng, False)))
         elif t == "hmut":
-            acts.append((t, rand_op(rng, False), rng.randrange(8)))
+            acts.append((t, rand_op_shapes(rng, False) if rng.random() < 0.2 else rand_op(rng, False), rng.randrange(8)))
         elif t == "hread":
             acts.append((t, rng.randrange(8)))
         elif t == "setqs":
-            acts.append((t, rand_valid_qs(rng) if rng.random() < 0.7 else rand_qs(rng, 8)))
+            q = rand_valid_qs(rng) if rng.random() < 0.7 else rand_qs(rng, 8)
+            r = rng.random()
+            acts.append(("delqs",) if r < 0.1 else ((t, q, "attr") if r < 0.4 else (t, q)))
         elif t == "body":
             m2 = rng.choice(["urlencoded", "multipart"])
             acts.append((t, rand_fields(rng, files=(m2 == "multipart"), maxn=2), m2))
@@ -1166,6 +1272,344 @@ def rand_order_items(rng, n):
     return items
 
 
+# ===================================================================== configurations / argument shapes / outside the domain
+class _ChunkedRaw(object):
+    """A non-seekable WSGI input stream (read / readline only; like a socket file it blocks until it has n octets)."""
+
+    def __init__(self, data):
+        import io
+        self._b = io.BytesIO(data)
+
+    def read(self, n=-1):
+        return self._b.read(n)
+
+    def readline(self, n=-1):
+        return self._b.readline(n)
+
+    def __iter__(self):
+        return iter(self._b)
+
+
+CFG_METHODS = ["POST", "PUT", "PATCH", "DELETE"]
+CFG_CT_MULTIPART = [None, "multipart/form-data; boundary=%s", 'multipart/form-data; boundary="%s"',
+                    "multipart/form-data; BOUNDARY=%s", "multipart/form-data; charset=utf-8; boundary=%s",
+                    'multipart/form-data; boundary=%s; charset="UTF-8"']
+CFG_CT_URLENCODED = [None, "application/x-www-form-urlencoded; charset=UTF-8", "application/x-www-form-urlencoded;charset=utf8",
+                     'application/x-www-form-urlencoded; charset="utf-8"']
+CFG_STREAMS = ["seekable", "nonseekable", "terminated", "late"]
+CFG_LIMITS = [None, 0, 64]
+
+
+def rand_cfg(rng, mode):
+    return {"method": rng.choice(CFG_METHODS), "ct": rng.randrange(len(CFG_CT_MULTIPART if mode == "multipart" else
+                                                                       CFG_CT_URLENCODED)),
+            "stream": rng.choice(CFG_STREAMS), "limit": rng.choice(CFG_LIMITS), "qs_key": rng.random() < 0.8,
+            "boundary": "cfgB%06x" % rng.randrange(16 ** 6)}
+
+
+def oracle_post_cfg(fields, mode, cfg):
+    """The POST round trip under every configuration the code paths read: request method, Content-Type spelling
+    (explicit / quoted / upper-case boundary parameter, charset parameter), seekable vs non-seekable vs
+    unterminated input, request_body_tempfile_limit of a subclass, QUERY_STRING key absent, and everything set
+    AFTER construction (method, content type, body assigned to an existing GET request whose views were read)."""
+    import io
+    from webob import Request
+    cls = Request
+    if cfg["limit"] is not None:
+        cls = type("LimitedRequest", (Request,), {"request_body_tempfile_limit": cfg["limit"]})
+    forms = CFG_CT_MULTIPART if mode == "multipart" else CFG_CT_URLENCODED
+    ct = forms[cfg["ct"] % len(forms)]
+    if ct is None:
+        ct = "multipart/form-data" if mode == "multipart" else "application/x-www-form-urlencoded"
+    elif "%s" in ct:
+        if any(cfg["boundary"].encode() in (v.encode("utf-8") if isinstance(v, str) else v[1]) for _, v in fields):
+            return None
+        ct = ct % cfg["boundary"]
+    want = want_post(fields)
+    what = "POST=%r sent as %r under %r" % (fields, ct, cfg)
+    try:
+        req = cls.blank("/", environ={"QUERY_STRING": "q=1&r=%C3%A9"}, POST=list(fields), content_type=ct,
+                        method=cfg["method"])
+        if cfg["stream"] in ("nonseekable", "terminated"):
+            body = req.body
+            req.environ["wsgi.input"] = _ChunkedRaw(body)
+            req.environ["webob.is_body_seekable"] = False
+            if cfg["stream"] == "terminated":
+                del req.environ["CONTENT_LENGTH"]
+                req.environ["wsgi.input_terminated"] = True
+        elif cfg["stream"] == "late":
+            body, ctype = req.body, req.environ["CONTENT_TYPE"]
+            req = cls.blank("/", environ={"QUERY_STRING": "q=1&r=%C3%A9"})
+            first = [catch(lambda: canon_post(req.POST)), catch(lambda: req.charset), catch(lambda: canon_post(req.params))]
+            if first[0] != [] or first[2] != [["q", "1"], ["r", "\xe9"]]:
+                return "config:no-form", "a GET request without body shows POST %r params %r" % (first[0], first[2])
+            req.method = cfg["method"]
+            req.environ["CONTENT_TYPE"] = ctype
+            req.body = body
+        get_want = [["q", "1"], ["r", "\xe9"]]
+        if not cfg["qs_key"]:
+            del req.environ["QUERY_STRING"]
+            get_want = []
+        got = canon_post(req.POST)
+        again = canon_post(req.POST)
+        get = [list(kv) for kv in req.GET.items()]
+        params = canon_post(req.params)
+    except Exception as e:  # noqa
+        return "config:raises", "%s: raised %s: %s" % (what, type(e).__name__, e)
+    if got != want or again != want:
+        return "config:post-differs", "%s: request.POST gives %r (again: %r)" % (what, got, again)
+    if get != get_want or params != get_want + want:
+        return "config:params", "%s: GET %r params %r" % (what, get, params)
+    return None
+
+
+SHAPES = ["str-body", "bytes-body", "generator", "iterator", "dict", "md", "positional", "file-str-content",
+          "text-bytes-value", "fileobj", "reader", "fieldstorage-list", "fieldstorage-dict", "empty"]
+
+
+class _Reader(object):
+    def __init__(self, data):
+        self._d = data
+
+    def read(self):
+        return self._d
+
+
+def oracle_shapes(fields, shape):
+    """Every accepted spelling of the POST argument of Request.blank gives the same request.POST."""
+    import io
+    from webob import Request
+    from webob.multidict import MultiDict
+    has_files = any(not isinstance(v, str) for _, v in fields)
+    want = want_post(fields)
+    kw = {}
+    args = ["/", {"QUERY_STRING": "q=1"}, None, None]
+    try:
+        if shape in ("str-body", "bytes-body"):
+            if has_files:
+                return None
+            body = urllib.parse.urlencode([(k.encode("utf-8"), v.encode("utf-8")) for k, v in fields])
+            data = body if shape == "str-body" else body.encode("ascii")
+        elif shape == "generator":
+            data = ((k, v) for k, v in fields)
+        elif shape == "iterator":
+            data = iter(list(fields))
+        elif shape in ("dict", "md"):
+            if shape == "dict":
+                seen = set()
+                fields = [f for f in fields if not (f[0] in seen or seen.add(f[0]))]
+                want = want_post(fields)
+            data = dict(fields) if shape == "dict" else MultiDict(fields)
+        elif shape == "positional":
+            data = list(fields)
+        elif shape == "file-str-content":
+            data = [(k, v if isinstance(v, str) else (v[0], v[1].decode("latin-1"))) for k, v in fields]
+            want = [[k, v] if isinstance(v, str) else [k, v[0], v[1].decode("latin-1").encode("utf-8")] for k, v in fields]
+        elif shape == "text-bytes-value":
+            data = [(k, v.encode("utf-8") if isinstance(v, str) else v) for k, v in fields]
+        elif shape in ("fileobj", "reader"):
+            mk = io.BytesIO if shape == "fileobj" else _Reader
+            data = [(k, v if isinstance(v, str) else (v[0], mk(v[1]))) for k, v in fields]
+        elif shape in ("fieldstorage-list", "fieldstorage-dict"):
+            src = Request.blank("/", POST=list(fields), content_type="multipart/form-data")
+            items = list(src.POST.items())
+            if shape == "fieldstorage-dict":
+                seen = set()
+                items = [f for f in items if not (f[0] in seen or seen.add(f[0]))]
+                fields = [f for f in fields if f[0] in seen and not seen.discard(f[0])]
+                want = want_post(fields)
+                data = dict(items)
+            else:
+                data = items
+        else:
+            data = [list, tuple, dict, MultiDict][len(fields) % 4]()
+            fields, want, has_files = [], [], False
+        if has_files or shape in ("text-bytes-value",) and len(fields) % 2:
+            kw["content_type"] = "multipart/form-data"
+        req = Request.blank(*(args + [data]), **kw) if shape == "positional" else \
+            Request.blank("/", environ={"QUERY_STRING": "q=1"}, POST=data, **kw)
+        got = canon_post(req.POST)
+        params = canon_post(req.params)
+        method = req.method
+    except Exception as e:  # noqa
+        return "shape:raises", "Request.blank(POST=<%s of %r>) raised %s: %s" % (shape, fields, type(e).__name__, e)
+    if got != want:
+        return "shape:post-differs", "Request.blank(POST=<%s of %r>): request.POST gives %r, expected %r" % (
+            shape, fields, got, want)
+    if params != [["q", "1"]] + want or method != "POST":
+        return "shape:params", "Request.blank(POST=<%s of %r>): method %r params %r" % (shape, fields, method, params)
+    return None
+
+
+def oracle_decode_cfg(cs, pairs, errors, late, where):
+    """request.decode on a query + urlencoded form that IS validly encoded in cs, with its arguments varied: whatever
+    `errors` handler is named the result is the same pairs; positional / keyword / implicit charset; quoted charset
+    parameter.  late = env/attr: the Content-Type gets its charset AFTER the wrapper's charset was used once; the
+    request charset is fixed at first use (documented, C01), so decode() without argument follows the first-use
+    charset of THAT wrapper, decode(cs) with the explicit charset gives the pairs, and a new wrapper on the same
+    environ (whose first use sees the new Content-Type) decodes implicitly to the pairs."""
+    from webob import Request
+    raw = [(k.encode(cs), v.encode(cs)) for k, v in pairs]
+    qs = "&".join(urllib.parse.quote_plus(k) + "=" + urllib.parse.quote_plus(v) for k, v in raw)
+    want = [list(p) for p in pairs]
+    ct = "application/x-www-form-urlencoded; charset=%s" % (cs if late != "quoted" else '"%s"' % cs)
+    what = "decode(%r, errors=%r) [%s, %s] of %r" % (cs, errors, late, where, qs)
+
+    def views(d):
+        return [[list(kv) for kv in d.GET.items()], [list(kv) for kv in d.POST.items()], d.charset]
+
+    def explicit(req):
+        return req.decode(charset=cs, errors=errors) if where == "keyword" else req.decode(cs, errors)
+    try:
+        if late in ("env", "attr"):
+            req = Request.blank("/", environ={"QUERY_STRING": qs}, POST=qs.encode("ascii"),
+                                content_type="application/x-www-form-urlencoded")
+            first = req.charset                                     # first use fixes the wrapper's charset
+            if late == "env":
+                req.environ["CONTENT_TYPE"] = ct
+            else:
+                req.content_type = ct
+            if req.charset != first:
+                return "decode:charset-not-fixed-at-first-use", "%s: charset was %r, now %r" % (what, first, req.charset)
+            d0 = req.decode()
+            if (d0 is req) != (first == "UTF-8"):
+                return "decode:implicit-charset", "%s: decode() does not follow the first-use charset %r" % (what, first)
+            got = views(explicit(req))
+            fresh = views(Request(req.environ.copy()).decode())       # a new wrapper: its first use sees cs
+            if fresh[:2] != [want, want]:
+                return "decode:query", "%s: a new wrapper's decode() gives %r, expected %r" % (what, fresh, want)
+        else:
+            req = Request.blank("/", environ={"QUERY_STRING": qs}, POST=qs.encode("ascii"), content_type=ct)
+            got = views(req.decode() if (errors == "strict" and where == "implicit") else explicit(req))
+    except Exception as e:  # noqa
+        return "decode:raises", "%s raised %s: %s" % (what, type(e).__name__, e)
+    if got[0] != want or got[1] != want or got[2] != "UTF-8":
+        return ("decode:query" if got[0] != want else "decode:form"), "%s: got %r, expected GET = POST = %r" % (what, got, want)
+    return None
+
+
+BAD_VALUES = ["surrogate", "none-default", "int", "bytes", "int-key"]
+
+
+def oracle_outside_get(qs0, kind, key):
+    """Outside the text domain of request.GET (the theorems assume text): a refused value must be refused by one of
+    the documented-by-behaviour exceptions, must leave QUERY_STRING as it was (never half-written), and removing the
+    offending pair must bring GET and QUERY_STRING back together."""
+    req, env = new_request(qs0)
+    before = ref_decode_qs(qs0)
+    if isinstance(before, Err):
+        return None
+    g = req.GET
+    if kind == "surrogate":
+        r = catch(g.add, key, "x\ud800y")
+    elif kind == "none-default":
+        if key in g:
+            return None
+        r = catch(g.setdefault, key)
+    elif kind == "int":
+        r = catch(g.add, key, 5)
+    elif kind == "bytes":
+        r = catch(g.add, key, b"x")
+    else:
+        key = 5
+        r = catch(g.add, key, "x")
+    what = "request.GET %s under key %r on %r" % (kind, key, qs0)
+    if not isinstance(r, Err) or r.name not in ("UnicodeEncodeError", "AttributeError", "TypeError"):
+        return "outside:get-bad-value-not-refused", "%s: returned %r" % (what, r)
+    if env["QUERY_STRING"] != qs0:
+        return "outside:query-string-half-written", "%s: QUERY_STRING became %r" % (what, env["QUERY_STRING"])
+    r2 = catch(g.__delitem__, key)
+    if isinstance(r2, Err):
+        return "outside:cannot-recover", "%s: removing the pair raised %r" % (what, r2)
+    items = [list(kv) for kv in req.GET.items()]
+    fresh = impl_get(env["QUERY_STRING"])
+    want = [kv for kv in before if kv[0] != key]
+    if items != want or fresh != want:
+        return "outside:cannot-recover", "%s: after removing the pair GET shows %r, QUERY_STRING %r parses to %r, expected %r" % (
+            what, items, env["QUERY_STRING"], fresh, want)
+    return None
+
+
+def oracle_outside_misc(case):
+    from webob import Request
+    t = case["t"]
+    if t == "qs-non-wsgi":                  # code points >= 256: the stated refusal is UnicodeEncodeError
+        req, env = new_request(case["qs"])
+        for name, f in (("GET", lambda: list(req.GET.items())), ("params", lambda: list(req.params.items()))):
+            r = catch(f)
+            if r != Err("UnicodeEncodeError"):
+                return "outside:non-wsgi-query-string", "%s on QUERY_STRING %r gives %r" % (name, case["qs"], r)
+        if env["QUERY_STRING"] != case["qs"]:
+            return "outside:non-wsgi-query-string", "QUERY_STRING changed to %r" % env["QUERY_STRING"]
+        env["QUERY_STRING"] = "a=1"
+        if catch(lambda: [list(kv) for kv in req.GET.items()]) != [["a", "1"]]:
+            return "outside:non-wsgi-query-string", "the request does not recover after QUERY_STRING is repaired"
+        return None
+    fields = fix_fields(case["fields"])
+    if t == "crlf-names":
+        # urlencoded: line breaks in names are quoted, the whole property still holds
+        flat = [(k, v) for k, v in fields if isinstance(v, str)]
+        m = post_roundtrip(flat, "urlencoded", "list")
+        if m:
+            return "outside:crlf-name-urlencoded", m
+        # multipart: cgi reads headers line by line; what must survive is everything ELSE
+        try:
+            got = canon_post(Request.blank("/", POST=list(fields), content_type="multipart/form-data").POST)
+        except Exception as e:  # noqa
+            return "outside:crlf-name-raises", "POST=%r raised %s: %s" % (fields, type(e).__name__, e)
+        want = want_post(fields)
+        clean = lambda f: not any(c in s for c in "\r\n" for s in ([f[0]] if len(f) == 2 else f[:2]))  # noqa
+        if len(got) != len(want) or any(g != w for g, w in zip(got, want) if clean(w)):
+            return "outside:crlf-name-damages-neighbours", "POST=%r gives %r" % (fields, got)
+        return None
+    if t == "empty-filename":
+        try:
+            got = canon_post(Request.blank("/", POST=list(fields), content_type="multipart/form-data").POST)
+        except Exception as e:  # noqa
+            return "outside:empty-filename-raises", "POST=%r raised %s: %s" % (fields, type(e).__name__, e)
+        want = [[k, v] if isinstance(v, str) else ([k, v[1]] if not v[0] else [k, v[0], v[1]]) for k, v in fields]
+        if got != want:
+            return "outside:empty-filename", "POST=%r gives %r, expected the contents under the same names %r" % (
+                fields, got, want)
+        return None
+    if t == "boundary-in-content":
+        b = case["boundary"]
+        try:
+            got = canon_post(Request.blank("/", POST=list(fields),
+                                           content_type="multipart/form-data; boundary=%s" % b).POST)
+        except Exception as e:  # noqa
+            return "outside:boundary-in-content-raises", "POST=%r raised %s: %s" % (fields, type(e).__name__, e)
+        want = want_post(fields)
+        n = next(i for i, (k, v) in enumerate(fields) if ("--" + b) in (v if isinstance(v, str) else v[1].decode("latin-1")))
+        if got[:n] != want[:n]:
+            return "outside:boundary-in-content", "the fields BEFORE the one containing the boundary changed: %r" % (got,)
+        return None
+    if t == "refusals":
+        r = Request.blank("/", environ={"QUERY_STRING": "a=%e9"}, POST=b"b=%e9",
+                          content_type="application/x-www-form-urlencoded; charset=latin-1")
+        checks = [
+            (catch(lambda: r.POST), Err("DeprecationWarning"), "POST of a non-UTF-8 form must ask for decode()"),
+            (catch(lambda: Request.blank("/?a=1", POST=b"b=%e9", content_type="application/x-www-form-urlencoded; "
+                                         "charset=latin-1").params), Err("DeprecationWarning"),
+             "params of a non-UTF-8 form must ask for decode()"),
+            (catch(lambda: r.decode("no-such-codec")), Err("LookupError"), "decode() with an unknown codec"),
+            (catch(lambda: [list(kv) for kv in r.decode("latin-1").POST.items()]), [["b", "\xe9"]], "decode afterwards"),
+            (catch(lambda: Request.blank("/", POST=[("a", "b")], content_type="text/plain")), Err("ValueError"),
+             "non-form content type with non-bytes POST data"),
+            (catch(lambda: Request.blank("/", POST=[("f", ("x", b"1"))], content_type="application/x-www-form-urlencoded")),
+             Err("ValueError"), "files in an urlencoded form"),
+            (catch(lambda: canon_post(Request.blank("/?a=1", POST=b"x=1", content_type="text/plain").POST)), [],
+             "a non-form body has no POST variables"),
+            (catch(lambda: canon_post(Request.blank("/?a=1", POST=b"x=1", content_type="text/plain").params)), [["a", "1"]],
+             "params of a non-form request is GET"),
+        ]
+        for got, want, what in checks:
+            if got != want:
+                return "outside:refusal", "%s: got %r, expected %r" % (what, got, want)
+        return None
+    raise ValueError(case)
+
+
 # ===================================================================== UTF-8 generators
 CP_BOUNDS = [0, 0x41, 0x7f, 0x80, 0x7ff, 0x800, 0xfff, 0x1000, 0xcfff, 0xd000, 0xd7ff, 0xe000, 0xfffd, 0xffff, 0x10000,
              0x3ffff, 0x40000, 0xfffff, 0x100000, 0x10ffff]
@@ -1244,7 +1688,9 @@ ORACLE_ONLY = [
     "webob.request:BaseRequest.copy_get", "webob.request:BaseRequest.blank", "webob.request:BaseRequest.body",
     "webob.request:BaseRequest.copy_body", "webob.request:BaseRequest.make_body_seekable",
     "webob.request:environ_add_POST", "webob.request:_get_multipart_boundary", "webob.request:Transcoder.transcode_fs",
-    "webob.request:Transcoder.__init__", "webob.multidict:MultiDict.from_fieldstorage", "webob.multidict:NoVars",
+    "webob.request:Transcoder.__init__", "webob.request:BaseRequest.charset", "webob.request:detect_charset",
+    "webob.request:BaseRequest.method", "webob.request:BaseRequest.content_type", "webob.request:BaseRequest.query_string",
+    "webob.multidict:MultiDict.from_fieldstorage", "webob.multidict:NoVars",
     "webob.compat:cgi_FieldStorage", "webob.util:text_", "webob.util:bytes_",
     "cgi:FieldStorage", "cgi:parse_header", "mimetypes:guess_type",
 ]
@@ -1260,7 +1706,7 @@ def run(ctx):
     # ------------------------------------------------------------------ correspondence: utf-8
     rng = ctx.sub_rng("utf8")
     cases = []
-    for _ in range(ctx.scale(500, 4000)):
+    for _ in range(ctx.scale(400, 4000)):
         b = rand_utf8_bytes(rng)
         cases.append((cstr(b), catch(b.decode, "utf-8"), {"kind": "utf8-decode", "bytes": b.hex()}))
     bad = ctx.corr("utf8-decode", IMPORTS, "v_utf8_decode", cases, in_type="str")
@@ -1277,7 +1723,7 @@ def run(ctx):
     # ------------------------------------------------------------------ correspondence: unquote / parse
     rng = ctx.sub_rng("corr-query")
     qss = ["".join(t) for n in range(0, 4) for t in itertools.product(QS_ALPHA, repeat=n)]      # all strings <= 3
-    qss += [rand_qs(rng, 10) for _ in range(ctx.scale(500, 6000))]
+    qss += [rand_qs(rng, 10) for _ in range(ctx.scale(300, 6000))]
     cases = [(cstr(q.encode("latin-1")), impl_unquote(q.encode("latin-1")), {"kind": "query", "qs": q}) for q in qss]
     bad = ctx.corr("unquote", IMPORTS, "v_unquote", cases, in_type="str", shard=200)
     for i in bad[:6]:
@@ -1292,7 +1738,7 @@ def run(ctx):
 
     # ------------------------------------------------------------------ correspondence: on_change / transcode
     cases = []
-    for _ in range(ctx.scale(400, 3000)):
+    for _ in range(ctx.scale(300, 3000)):
         its = rand_pairs(rng, 4)
         cases.append((citems(its), impl_on_change(its), {"kind": "writeback", "items": its}))
     bad = ctx.corr("on_change", IMPORTS, "v_on_change", cases, in_type="items", shard=100)
@@ -1300,16 +1746,28 @@ def run(ctx):
         it = cases[i][2]["items"]
         _disagree(ctx, "on_change", cases[i][2], oracle_history("", [("extend", it, "list")]))
     cases = []
-    for _ in range(ctx.scale(400, 3000)):
+    for _ in range(ctx.scale(300, 3000)):
         q = rand_qs(rng, 10)
         cases.append((cstr(q), impl_transcode("latin-1", q), {"kind": "query", "qs": q}))
     bad = ctx.corr("transcode_query", IMPORTS, "v_transcode_latin1", cases, in_type="str")
     for i in bad[:4]:
         _disagree(ctx, "transcode_query", cases[i][2], oracle_query(cases[i][2]["qs"]))
 
+    # Transcoder(charset, errors).transcode_query: `errors` does not reach the query path (parse_qsl_text decodes
+    # strictly), so ONE model function answers for every handler
+    for errs in ("strict", "replace", "ignore"):
+        cases = []
+        for _ in range(ctx.scale(100, 1000)):
+            q = rand_qs(rng, 8)
+            from webob.request import Transcoder
+            cases.append((cstr(q), catch(Transcoder("ascii", errs).transcode_query, q), {"kind": "query", "qs": q}))
+        bad = ctx.corr("transcode_query-ascii-" + errs, IMPORTS, "v_transcode_ascii", cases, in_type="str")
+        for i in bad[:3]:
+            _disagree(ctx, "transcode_query-ascii-" + errs, cases[i][2], oracle_query(cases[i][2]["qs"]))
+
     # ------------------------------------------------------------------ correspondence: request.GET histories
     cases = []
-    for _ in range(ctx.scale(400, 2400)):
+    for _ in range(ctx.scale(300, 2400)):
         qs0, ops = rand_history(rng, ctx.scale(8, 16))
         cases.append((cpair(cstr(qs0), clist(crq(o) for o in ops)), run_get_history(qs0, ops),
                       {"kind": "history", "qs0": qs0, "ops": ops}))
@@ -1321,7 +1779,7 @@ def run(ctx):
 
     # ------------------------------------------------------------------ correspondence: held GetDict objects
     cases = []
-    for _ in range(ctx.scale(300, 2000)):
+    for _ in range(ctx.scale(250, 2000)):
         qs0, ops = rand_held_history(rng, ctx.scale(8, 14))
         cases.append((cpair(cstr(qs0), clist(chq(o) for o in ops)), run_held_history(qs0, ops),
                       {"kind": "held", "qs0": qs0, "ops": ops}))
@@ -1334,7 +1792,7 @@ def run(ctx):
     # ------------------------------------------------------------------ correspondence: multipart framing
     rng = ctx.sub_rng("corr-multipart")
     enc_cases, dec_cases = [], []
-    for _ in range(ctx.scale(350, 2000)):
+    for _ in range(ctx.scale(300, 2000)):
         fields = [(k, v[:300] if isinstance(v, str) else (v[0], v[1][:200])) for k, v in
                   rand_fields(rng, True, 3, trailing_backslash=rng.random() < 0.03)]
         b = rand_boundary(rng, fields)
@@ -1471,6 +1929,69 @@ def run(ctx):
             ctx.fail(r[0], r[1], {"kind": "order", "items": items, "perms": perms}, True, "call-order")
     ctx.oracle_count("call-order", n_calls, n_calls)
 
+    # ------------------------------------------------------------------ oracle: configurations, argument shapes
+    rng = ctx.sub_rng("oracle-config")
+    m = ctx.scale(2500, 25000)
+    for _ in range(m):
+        mode = rng.choice(["multipart", "multipart", "urlencoded"])
+        fields = rand_fields(rng, files=(mode == "multipart"), maxn=3)
+        cfg = rand_cfg(rng, mode)
+        r = oracle_post_cfg(fields, mode, cfg)
+        if r:
+            ctx.fail(r[0], r[1], {"kind": "post-cfg", "fields": fields, "mode": mode, "cfg": cfg}, True, "config-post")
+    ctx.oracle_count("config-post", m, m)
+    m = ctx.scale(2000, 20000)
+    for j in range(m):
+        fields = rand_fields(rng, files=rng.random() < 0.6, maxn=3)
+        shape = SHAPES[j % len(SHAPES)]
+        r = oracle_shapes(fields, shape)
+        if r:
+            ctx.fail(r[0], r[1], {"kind": "shape", "fields": fields, "shape": shape}, True, "blank-shapes")
+    ctx.oracle_count("blank-shapes", m, m)
+    m = ctx.scale(1500, 15000)
+    for _ in range(m):
+        cs = rng.choice(["latin-1", "cp1252", "shift_jis"])
+        errors = rng.choice(["strict", "strict", "replace", "ignore"])
+        pairs = cs_pairs(rng, cs)               # always validly encoded in cs: `errors` must make no difference
+        late = rng.choice([None, "env", "attr", "quoted"])
+        where = rng.choice(["positional", "keyword", "implicit"])
+        r = oracle_decode_cfg(cs, pairs, errors, late, where)
+        if r:
+            ctx.fail(r[0], r[1], {"kind": "decode-cfg", "cs": cs, "pairs": pairs, "errors": errors, "late": late,
+                                  "where": where}, True, "decode-config")
+    ctx.oracle_count("decode-config", m, m)
+
+    # ------------------------------------------------------------------ oracle: outside the modelled domains
+    rng = ctx.sub_rng("oracle-outside")
+    m = ctx.scale(600, 6000)
+    cnt = 0
+    for _ in range(m):
+        qs0, kind, key = rand_valid_qs(rng), rng.choice(BAD_VALUES), rand_text(rng)
+        cnt += 1
+        r = oracle_outside_get(qs0, kind, key)
+        if r:
+            ctx.fail(r[0], r[1], {"kind": "outside-get", "qs0": qs0, "bad": kind, "key": key}, True, "outside-domain")
+    misc = [{"t": "qs-non-wsgi", "qs": q} for q in ("a=€", "\u0100", "a=1&b=\U0001f600", "%41=\u20ac;x")] + \
+        [{"t": "refusals", "fields": []}]
+    for _ in range(ctx.scale(300, 3000)):
+        fields = rand_fields(rng, True, 4)
+        i = rng.randrange(len(fields) + 1)
+        brk = rng.choice(["\r\n", "\n", "\r", "\r\nX-Y: z", '"\r\n\r\ninj\r\n'])
+        bad = ("b" + brk + rand_name(rng, 1), "2") if rng.random() < 0.6 else \
+            ("f", ("x" + brk + "y.txt", b"2"))
+        misc.append({"t": "crlf-names", "fields": fields[:i] + [bad] + fields[i:]})
+        misc.append({"t": "empty-filename", "fields": fields[:i] + [("e", ("", rand_bytes(rng)[:50]))] + fields[i:]})
+        b = "xB%04x" % rng.randrange(16 ** 4)
+        clean = [f for f in fields if b.encode() not in (f[1].encode("utf-8") if isinstance(f[1], str) else f[1][1])]
+        hit = ("h", "x\r\n--%s\r\ny" % b) if rng.random() < 0.5 else ("h", ("h.bin", b"\n--" + b.encode() + b"--"))
+        misc.append({"t": "boundary-in-content", "boundary": b, "fields": clean[:i] + [hit] + clean[i:]})
+    for case in misc:
+        cnt += 1
+        r = oracle_outside_misc(case)
+        if r:
+            ctx.fail(r[0], r[1], dict(case, kind="outside-misc"), True, "outside-domain")
+    ctx.oracle_count("outside-domain", cnt, cnt)
+
     # ------------------------------------------------------------------ oracle: POST round trips
     rng = ctx.sub_rng("oracle-post")
     m = ctx.scale(6000, 50000)
@@ -1592,6 +2113,16 @@ def replay(ctx, path):
         r = oracle_args(fix_fields(case["fields"]), case["mode"], case["form"])
     elif kind == "order":
         r = oracle_order(case["items"], case["perms"])
+    elif kind == "post-cfg":
+        r = oracle_post_cfg(fix_fields(case["fields"]), case["mode"], case["cfg"])
+    elif kind == "shape":
+        r = oracle_shapes(fix_fields(case["fields"]), case["shape"])
+    elif kind == "decode-cfg":
+        r = oracle_decode_cfg(case["cs"], [tuple(p) for p in case["pairs"]], case["errors"], case["late"], case["where"])
+    elif kind == "outside-get":
+        r = oracle_outside_get(case["qs0"], case["bad"], case["key"])
+    elif kind == "outside-misc":
+        r = oracle_outside_misc(case)
     elif kind == "decode-query":
         r = oracle_decode_query([tuple(p) for p in case["pairs"]], case["cs"], case["raw"], True)
     elif kind == "decode-multipart":
